@@ -152,6 +152,11 @@ fn scenario(cfg: &Cfg, track: bool) -> Out {
             ncfg.bootstrap_junk = vec![format!("{}:99999", dead.ip()), dead.ip().to_string()];
         }
         let n = w.add_node(ncfg);
+        // every fourth node has sent more than 65536 requests in an earlier life of its socket
+        // (its transaction-id counter is past the two-byte range before its first request)
+        if (j + cfg.perm) % 4 == 3 {
+            w.set_next_tid(n, 0x1_0000 + 4464 * j as u32);
+        }
         nodes.push(n);
         addrs.push(w.node_addr(n));
         let c = w.call_bootstrapped(n);
